@@ -128,6 +128,6 @@ def main():
     json.dump(man, open(os.path.join(here, "MANIFEST.json"), "w"), indent=1)
     print("MANIFEST.json:", len(checks), "checks,", len(na), "not claimed")
 
-HOOK_COMMITS = ["4c169a7"]
+HOOK_COMMITS = ["4c169a7", "460e71a"]
 if __name__ == "__main__":
     main()
